@@ -523,27 +523,10 @@ func (r *Run) checkLinearizable(o *batchOutcome) {
 	case porcupine.Illegal:
 		r.W.Count.Inc("porcupine.illegal")
 		prop := "C02"
-		claims, seqs := 0, 0
-		for _, c := range o.cmds {
-			if c.Op == "claim" {
-				claims++
-			}
-			if c.Op == "sequence" {
-				seqs++
-			}
-		}
-		if r.Sc.Prop == "C01" && claims > 0 {
-			prop = "C01"
-		}
-		if r.Sc.Prop == "C07" && seqs > 0 {
-			prop = "C07"
-		}
-		if r.Sc.Prop == "C09" {
-			for _, c := range o.cmds {
-				if c.Op == "prune" {
-					prop = "C09"
-				}
-			}
+		switch r.Sc.Prop {
+		case "C01", "C06", "C07", "C09", "C11", "C14", "C15", "C20":
+			// the batch was generated as this property's conflict scenario
+			prop = r.Sc.Prop
 		}
 		var desc []string
 		for i, c := range o.cmds {
@@ -760,6 +743,74 @@ func genBatch(prop string, g *Gen, m *Model, rng *SplitMix) []Cmd {
 			case 3:
 				cmds = append(cmds, Cmd{Op: "list", LReady: true})
 			}
+		}
+	case "C06":
+		// conflicting state/claim requests on one task
+		t := taskRef()
+		n := 2 + rng.Intn(3)
+		for i := 0; i < n; i++ {
+			switch rng.Intn(5) {
+			case 0:
+				cmds = append(cmds, Cmd{Op: "claim_id", ID: t, Agent: agent()})
+			case 1:
+				cmds = append(cmds, Cmd{Op: "set", ID: t, Claim: sp(g.oneOf("", agent()))})
+			case 2:
+				cmds = append(cmds, Cmd{Op: "claim", Agent: agent()})
+			default:
+				cmds = append(cmds, Cmd{Op: "set", ID: t, State: sp(g.state()), Agent: g.oneOf("", agent())})
+			}
+		}
+	case "C11":
+		cmds = []Cmd{{Op: "plan", Plan: g.planDoc(false)}}
+		if rng.Chance(1, 3) {
+			cmds = append(cmds, Cmd{Op: "plan", Plan: g.planDoc(rng.Chance(1, 3))})
+		}
+		n := 1 + rng.Intn(2)
+		for i := 0; i < n; i++ {
+			cmds = append(cmds, mutation())
+		}
+	case "C14":
+		// an epic losing its last child / being pruned while tasks move into it
+		e := g.ref(m, isEpic, false)
+		cmds = []Cmd{{Op: "prune", Yes: true}, {Op: "new_task", Title: sp(g.text("title")), Epic: &e}}
+		if t, ok := g.liveOf(m, isTask); ok {
+			cmds = append(cmds, Cmd{Op: "set", ID: t, Epic: &e})
+		}
+		if t, ok := g.liveOf(m, func(it *MItem) bool { return !it.IsEpic && it.Epic != "" && !finished(it.State) }); ok && rng.Chance(1, 2) {
+			cmds = append(cmds, Cmd{Op: "set", ID: t, State: sp("done")})
+		}
+	case "C15":
+		// two requests that are each fine but together close a waits-for cycle
+		e1, e2 := g.ref(m, isEpic, false), g.ref(m, isEpic, false)
+		t1, _ := g.liveOf(m, func(it *MItem) bool { return !it.IsEpic && "#"+fmt.Sprint(it.Ord) != "" && m.Resolve(e1) == it.Epic })
+		t2, _ := g.liveOf(m, func(it *MItem) bool { return !it.IsEpic && m.Resolve(e2) == it.Epic })
+		if t1 == "" {
+			t1 = taskRef()
+		}
+		if t2 == "" {
+			t2 = taskRef()
+		}
+		cmds = []Cmd{{Op: "sequence", IDs: []string{t2, t1}}, {Op: "sequence", IDs: []string{e1, e2}}}
+		switch rng.Intn(3) {
+		case 0:
+			cmds = append(cmds, Cmd{Op: "set", ID: taskRef(), Epic: &e1})
+		case 1:
+			cmds = append(cmds, Cmd{Op: "new_task", Title: sp(g.text("title")), Epic: &e2})
+		}
+	case "C20":
+		t := taskRef()
+		n := 2 + rng.Intn(2)
+		for i := 0; i < n; i++ {
+			cc := Cmd{Op: "set", ID: t}
+			g.addResult(&cc)
+			if rng.Chance(1, 3) {
+				cc.State = sp(g.state())
+				cc.Agent = agent()
+			}
+			cmds = append(cmds, cc)
+		}
+		if rng.Chance(1, 2) {
+			cmds = append(cmds, Cmd{Op: "compact"})
 		}
 	case "C09":
 		// prune racing writers that make its targets ineligible
